@@ -36,6 +36,7 @@ type heartbeatManager struct {
 	waitGroup sync.WaitGroup
 	mu        sync.Mutex
 	running   bool
+	busySince map[string]time.Time // sessions whose mutex was busy at the last checks (monitor goroutine only)
 }
 
 // newHeartbeatManager creates a new heartbeat manager.
@@ -45,9 +46,10 @@ func newHeartbeatManager(primary *Primary, config *HeartbeatConfig) *heartbeatMa
 	}
 
 	return &heartbeatManager{
-		config:   config,
-		primary:  primary,
-		stopChan: make(chan struct{}),
+		config:    config,
+		primary:   primary,
+		stopChan:  make(chan struct{}),
+		busySince: make(map[string]time.Time),
 	}
 }
 
@@ -118,7 +120,25 @@ func (h *heartbeatManager) checkSessions() {
 		}
 
 		// Check if session has timed out
-		session.mu.Lock()
+		// A send to a replica that stopped reading blocks (flow control) with
+		// the session mutex held. Waiting for that mutex here would stall the
+		// monitor - and with it the detection of every dead session - for as
+		// long as the replica is stuck. A session whose mutex stays busy for
+		// longer than the timeout is dead.
+		if !session.mu.TryLock() {
+			since, seen := h.busySince[id]
+			if !seen {
+				h.busySince[id] = now
+			} else if now.Sub(since) > h.config.Timeout {
+				log.Warn("Session %s has been blocked in a send for %.1fs, dropping it",
+					id, now.Sub(since).Seconds())
+				deadSessions = append(deadSessions, id)
+				delete(h.busySince, id)
+			}
+			continue
+		}
+		delete(h.busySince, id)
+
 		lastActivity := session.LastActivity
 		if now.Sub(lastActivity) > h.config.Timeout {
 			log.Warn("Session %s timed out after %.1fs of inactivity",
